@@ -32,7 +32,8 @@ def c01_7(cx):
     cx.order(eq, pop, "C::execute (execute_query) completes before the frame is popped into revisions")
     cx.dominated_by_any(ins, [pop, it], "insert_memo only after the body completed (pop or execute_maybe_iterate)")
     cx.dominated_by_any(bd, [pop, it], "backdating only after the body completed")
-    cx.order(bd, do, "backdate_if_appropriate precedes diff_outputs")
+    with cx.only("C22"):
+        cx.order(bd, do, "backdate_if_appropriate (user PartialEq) precedes diff_outputs (destructive)")
     cx.check(not b.reaches(ins, bd) and not b.reaches(ins, do), "backdating and output diffing happen before insert_memo", ins, key="bd-before-insert")
     cx.skipped_only_if(b, bd, VariantIn(r"^\$4$", {"None"}, desc="opt_old_memo is None"), "backdating skipped only if there is no old memo", exits=[ins.bb])
     cx.skipped_only_if(b, do, VariantIn(r"^\$4$", {"None"}, desc="opt_old_memo is None"), "output diffing skipped only if there is no old memo", exits=[ins.bb])
